@@ -775,4 +775,11 @@ theorem bfac_total (close1 : ℝ → Bool) (hc : Ideal close1) (axes : List (Axi
   congr 1
   refine List.map_congr_left (fun a ha => ?_)
   exact sideFac_sum close1 hc a (hn a ha)
+/-- entry-wise domination of moduli inside the shape: `|xᵢ| ≤ |yᵢ|` for every entry of every
+leaf -/
+def ModLe : Space ℝ → El 𝕜 → El 𝕜 → Prop
+  | .tens n _ _, .vec x, .vec y => ∀ i, i < n → ‖x i‖ ≤ ‖y i‖
+  | .discr _ axes _ _, .vec x, .vec y => ∀ i, i < axesSize axes → ‖x i‖ ≤ ‖y i‖
+  | .prod m _ _ comp, .tup xs, .tup ys => ∀ k, k < m → ModLe (comp k) (xs k) (ys k)
+  | _, _, _ => False
 end OdlModel.C02
